@@ -549,10 +549,11 @@ func (r *rig) doGetMD(c int, short string, md int, scope int) hop {
 
 // handle is a retained complete-scope handle.
 type handle struct {
-	short string
-	f     *tiered.File
-	open  hop // the Read-like open record
-	gen   int32
+	short  string
+	f      *tiered.File
+	open   hop // the Read-like open record
+	gen    int32
+	seqOff int // bytes consumed so far by sequential Reads through this handle
 }
 
 // openHandle opens a handle that is kept across later operations. The open is
@@ -852,4 +853,140 @@ func (r *rig) doDGetMD(c int, short string, md int) hop {
 		out.Val = mdValue(md, m)
 	}
 	return r.record(c, opIn{Kind: opDGetMD, Key: key, MD: md}, out, call, ret, 0, "")
+}
+
+// ---- sequential reads through a retained handle ----
+
+// seqChunk judges n bytes that the handle's sequential Reads returned at
+// logical offset off: they must be exactly bytes [off, off+n) of one
+// generation; atEOF additionally requires off+n to be that blob's length.
+// It returns the generation, or 0 and why not.
+func (r *rig) seqChunk(hd *handle, b []byte, off int, atEOF bool) (int32, string) {
+	gen := hd.gen
+	if len(b) >= 8 && off%8 == 0 {
+		gen = int32(binary.BigEndian.Uint32(b[0:]))
+	}
+	if gen == 0 {
+		return 0, "" // nothing read yet, nothing to say
+	}
+	size, ok := r.gens.size(gen)
+	if !ok {
+		return 0, fmt.Sprintf("sequential read at offset %d returned bytes of unknown generation %d", off, gen)
+	}
+	if off+len(b) > size {
+		return 0, fmt.Sprintf("sequential reads returned %d bytes in total, blob of generation %d has %d", off+len(b), gen, size)
+	}
+	want := blobBytes(gen, size)[off : off+len(b)]
+	for i := range b {
+		if b[i] != want[i] {
+			w := (i / 8) * 8
+			got := "?"
+			if w+8 <= len(b) {
+				got = fmt.Sprintf("generation %d word %d", binary.BigEndian.Uint32(b[w:]), binary.BigEndian.Uint32(b[w+4:]))
+			}
+			return 0, fmt.Sprintf("sequential read at logical offset %d: byte %d differs from generation %d (stream shows %s, expected word %d)", off, off+i, gen, got, (off+w)/8)
+		}
+	}
+	if atEOF && off+len(b) != size {
+		return 0, fmt.Sprintf("sequential reads hit EOF after %d bytes, blob of generation %d has %d", off+len(b), gen, size)
+	}
+	return gen, ""
+}
+
+// readSome reads up to n bytes sequentially (n <= 0: until EOF).
+func readSome(f *tiered.File, n int) (b []byte, eof bool, err error) {
+	buf := make([]byte, 256)
+	for n <= 0 || len(b) < n {
+		want := len(buf)
+		if n > 0 && n-len(b) < want {
+			want = n - len(b)
+		}
+		k, e := f.Read(buf[:want])
+		b = append(b, buf[:k]...)
+		if e == io.EOF {
+			return b, true, nil
+		}
+		if e != nil {
+			return b, false, e
+		}
+		if k == 0 {
+			return b, false, errors.New("Read returned 0 bytes without error")
+		}
+	}
+	return b, false, nil
+}
+
+// seqHandle reads n bytes (multiple of 8) sequentially through the retained
+// handle, after an optional first operation that is not a sequential Read:
+// first = "size" | "readat" | "seekcur" | "" ; n <= 0 reads to EOF and then
+// also checks Size and ReadAt.
+func (r *rig) seqHandle(c int, hd *handle, n int, first string) []hop {
+	key := r.key(hd.short)
+	r.mark("HandleSeq"+first, hd.short)
+	call := stamp()
+	note := fmt.Sprintf("handle-of-op#%d sequential from offset %d first=%q", hd.open.ID, hd.seqOff, first)
+	var problems []string
+	var opErr error
+	size := int64(-1)
+	switch first {
+	case "size":
+		size = hd.f.Size()
+	case "readat":
+		p := make([]byte, 64)
+		k, e := hd.f.ReadAt(p, 128)
+		if e != nil && e != io.EOF {
+			opErr = e
+		} else if k >= 8 {
+			g := int32(binary.BigEndian.Uint32(p[0:]))
+			if sz, ok := r.gens.size(g); !ok || 128+k > sz || string(p[:k]) != string(blobBytes(g, sz)[128:128+k]) {
+				problems = append(problems, "ReadAt(64 bytes at 128) returned other bytes than the blob has there")
+			}
+		}
+	case "seekcur":
+		o, e := hd.f.Seek(0, io.SeekCurrent)
+		if e != nil {
+			opErr = e
+		} else if int(o) != hd.seqOff {
+			problems = append(problems, fmt.Sprintf("Seek(0, current) = %d after %d bytes were read sequentially", o, hd.seqOff))
+		}
+	}
+	var b []byte
+	eof := false
+	if opErr == nil {
+		b, eof, opErr = readSome(hd.f, n)
+	}
+	off := hd.seqOff
+	hd.seqOff += len(b)
+	out := opOut{Res: rOK}
+	if opErr != nil {
+		out.Res, out.Err = rErr, opErr.Error()
+	} else {
+		g, why := r.seqChunk(hd, b, off, eof)
+		if why != "" {
+			problems = append(problems, why)
+		}
+		if g != 0 {
+			hd.gen = g
+		}
+		if eof && g != 0 {
+			if sz, _ := r.gens.size(g); size >= 0 && int(size) != sz {
+				problems = append(problems, fmt.Sprintf("Size() = %d, blob of generation %d has %d bytes", size, g, sz))
+			}
+			if s2 := hd.f.Size(); s2 > 0 {
+				if sz, _ := r.gens.size(g); int(s2) != sz {
+					problems = append(problems, fmt.Sprintf("Size() = %d after EOF, blob has %d bytes", s2, sz))
+				}
+			}
+		}
+		if len(problems) == 0 {
+			out.Gen = hd.gen
+		} else {
+			note += " content: " + strings.Join(problems, "; ")
+		}
+		if out.Gen == 0 && len(problems) == 0 {
+			return nil // nothing was read and nothing is known about the handle yet
+		}
+	}
+	ret := stamp()
+	return []hop{r.record(c, opIn{Kind: opHRead, Key: key, Scope: scopeComplete}, out, call, ret, ret, note, hd.open.ID)}
 }
